@@ -698,6 +698,8 @@ func c03ModuleLevel(r *fw.Rec) {
 	c03NamedAliases(r)
 	c03FloatFromDouble(r)
 	c03HalfFromDouble(r)
+	c03Alignments(r)
+	c03SharedTypesUntouched(r)
 }
 
 // c03FloatFromDouble builds float constants from Go float64 values that are
@@ -967,3 +969,95 @@ func c03BlockAddresses(r *fw.Rec) {
 }
 
 var _ = strings.Contains
+
+// c03Alignments: every alignment is printed, the smallest (1: packed fields,
+// byte-wise access) and the largest LLVM knows (2^32) included, on loads,
+// stores, allocas, globals and functions; the re-parsed module must carry the
+// same alignments (structural comparison in c03CheckModule).
+func c03Alignments(r *fw.Rec) {
+	m := ir.NewModule()
+	aligns := []uint64{1, 2, 4, 8, 16, 4096, 1 << 29, 1 << 32}
+	for i, a := range aligns {
+		g := m.NewGlobalDef(fmt.Sprintf("g%d", i), ci(types.I8, int64(i)))
+		g.Align = ir.Align(a)
+	}
+	f := m.NewFunc("f", types.I8, ir.NewParam("p", types.I8Ptr), ir.NewParam("q", types.NewPointer(types.I32)))
+	f.Align = 1
+	b := f.NewBlock("entry")
+	var last value.Value = ci(types.I8, 0)
+	for _, a := range aligns {
+		al := b.NewAlloca(types.I8)
+		al.Align = ir.Align(a)
+		ld := b.NewLoad(types.I8, f.Params[0])
+		ld.Align = ir.Align(a)
+		st := b.NewStore(ld, al)
+		st.Align = ir.Align(a)
+		last = ld
+	}
+	// atomic accesses need an alignment that is at least the size
+	ald := b.NewLoad(types.I32, f.Params[1])
+	ald.Atomic, ald.Ordering, ald.Align = true, enum.AtomicOrderingAcquire, 4
+	ast := b.NewStore(ald, f.Params[1])
+	ast.Atomic, ast.Ordering, ast.Align = true, enum.AtomicOrderingRelease, 4
+	b.NewRet(last)
+	g := m.NewFunc("one", types.Void)
+	g.Align = 1 << 32
+	g.NewBlock("").NewRet(nil)
+	c03CheckModule(r, "alignments", m)
+}
+
+// c03SharedTypesUntouched: building and printing one module must not change what
+// another module built afterwards means. A block address of a function in
+// address space 1 is typed and printed; a second module that uses the
+// predeclared types (types.I8Ptr ...) must then print like it does in a process
+// that never saw the first, and be valid for LLVM.
+func c03SharedTypesUntouched(r *fw.Rec) {
+	second := func() (*ir.Module, string) {
+		m := ir.NewModule()
+		puts := m.NewFunc("puts", types.I32, ir.NewParam("s", types.I8Ptr))
+		msg := m.NewGlobalDef("msg", constant.NewCharArrayFromString("hi\x00"))
+		f := m.NewFunc("main", types.I32)
+		b := f.NewBlock("")
+		p := b.NewGetElementPtr(msg.ContentType, msg, ci(types.I64, 0), ci(types.I64, 0))
+		b.NewCall(puts, p)
+		slot := b.NewAlloca(types.I8Ptr)
+		b.NewStore(p, slot)
+		b.NewRet(ci(types.I32, 0))
+		t, _ := printGuard(m)
+		return m, t
+	}
+	_, ref := second()
+	canary := c12Canary()
+	r.Eval(1)
+	pan, msg, _ := fw.Guard(func() {
+		m := ir.NewModule()
+		f := m.NewFunc("far", types.Void)
+		f.AddrSpace = 1
+		entry, target := f.NewBlock("entry"), f.NewBlock("target")
+		entry.NewBr(target)
+		target.NewRet(nil)
+		ba := constant.NewBlockAddress(f, target)
+		_ = ba.Type()
+		m.NewGlobalDef("taken", ba)
+		_ = m.String()
+	})
+	if pan {
+		r.Violate(fw.Violation{Key: "constructor-panics/blockaddress-in-address-space", What: "a block address of a function in address space 1 cannot be built and printed: " + firstLine(msg)})
+		return
+	}
+	if c := c12Canary(); c != canary {
+		r.Violate(fw.Violation{Key: "shared-type-written/blockaddress-in-address-space", What: "building and printing a block address of a function in address space 1 changed a predeclared type or shared constant of the library", Expected: canary, Observed: c})
+		return
+	}
+	var m2 *ir.Module
+	var got string
+	if pan, msg, _ := fw.Guard(func() { m2, got = second() }); pan {
+		r.Violate(fw.Violation{Key: "shared-type-written/second-module-cannot-be-built", What: "after a module with a block address in address space 1 was printed, an unrelated module cannot be built: " + firstLine(msg)})
+		return
+	}
+	if got != ref {
+		r.Violate(fw.Violation{Key: "shared-type-written/second-module-prints-differently", What: "after a module with a block address in address space 1 was printed, an unrelated module prints differently: " + firstDiffLines(ref, got), Expected: ref, Observed: got})
+		return
+	}
+	c03CheckModule(r, "second-module-after-blockaddress-in-address-space", m2)
+}
